@@ -7,6 +7,18 @@
  *
  * usage: fuzzmon --seed S --mode direct|db --first I --count N --dir D [--target T]
  *                [--batch B] [--cpu-limit SEC] [--keep]
+ *   --target T     direct mode only: block footer handle readblock filter snappy edit batch
+ *                  logreader pkey filename coding dumpfile table (changes the case stream)
+ *   --batch B      cases per forked child (default 5000 direct, 100 db)
+ *   --cpu-limit S  per-case CPU guard in seconds (default 20; wall guard = 6 x S)
+ *   --keep         keep the work directory (db case directories)
+ *   env VERIF_FZ_DEBUG=1 writes per-case / per-phase timings to /tmp/fuzzmon-*.txt,
+ *   env VERIF_FZ_SPIN=<case> makes that case spin (self-test of the CPU guard).
+ * build: build_harness('fuzzmon', 'asan'|'rel', ['fuzzmon.c','vh.c','refcodec.c'], wrap=())
+ *
+ * violation keys: <kind>@<target>, kind in asan:<error>, ubsan:<check>, abort, alloc-bomb,
+ * signal-<n>, non-termination, exit.  Witness: <dir>/witness-<target>-<case>.bin (+ the whole
+ * case directory <dir>/witness-db-<case>.dir in db mode).
  *
  * Every case is a pure function of (seed, mode, case index[, --target]); a single
  * case is replayed with `--first I --count 1`.  The parent forks one child per
